@@ -23,6 +23,13 @@ def _hs():
     hs.append(H("c08::c08_vec3_generic", tier="thorough", desc="vec![layer, layer, layer] with any self-consistent answers", sym=SYM_S))
     hs.append(H("c08::c08_vec0_summaries", tier="quick", kind="finding", role="vec_empty_summaries",
                 desc="empty Vec on a root: interest never / hint OFF while enabled() is true", sym=SYM_S))
+    # Targets with two directives: decided in the C11 harness crate (directive keys enumerated there); the three
+    # one-prefix-family tuples below carry the hint-soundness assertion (hint >= every level the set enables) incl. the
+    # duplicate-key case, which is this property's subject
+    for nm, what in (("c11_we_t1_a_a", "the same target twice"), ("c11_we_t1_D_D", "the default (empty) target twice"), ("c11_we_t1_a_D", "a target and the default")):
+        hs.append(H("gen_c11::" + nm, group="subfmt", tier="quick",
+                    desc="Targets with two directives (%s): max_level_hint is an upper bound of what would_enable / enabled accept, interest consistent (shared with C11)" % what,
+                    sym="both directive levels, query target / level / kind"))
     hs.append(H("c08::c08_reach", tier="quick", kind="reach", desc="vacuity twin: always + enabled + hint == level reachable on a 2-layer stack"))
     return hs
 
@@ -55,7 +62,7 @@ SPEC = {
                "per-subscriber-filter stacks (Filtered needs the Registry for FilterId registration and FilterState::take_interest; "
                "the has_subscriber_filter / inner_is_registry branches of pick_interest and pick_level_hint are therefore not "
                "reached — C07 covers Filtered over the Registry); field-set dependent filters; expression depth > 2 over concrete "
-               "leaves; Targets with >= 2 directives or a default level (measured: undecided after 540 s under the 10 GB cap; Targets' matching semantics is C11's subject); Vec of >= 2 elements inside larger stacks (Vec of 2 and 3 elements is checked alone on the root); event_enabled (a per-event decision, not a static summary)",
+               "leaves; Targets with >= 2 directives as a leaf of larger expressions or stacks (measured: undecided after 540 s under the 10 GB cap; two-directive Targets alone are decided by three harnesses shared with C11, whose subject the matching semantics is); Vec of >= 2 elements inside larger stacks (Vec of 2 and 3 elements is checked alone on the root); event_enabled (a per-event decision, not a static summary)",
     "stubs": ["std::rt::thread_cleanup -> no-op", "core::fmt::write -> Ok(()) (panic / debug_assert text only)",
               "once_cell / sharded-slab / thread_local shims linked, no Registry constructed"],
     "assumptions": [
